@@ -1,6 +1,239 @@
-(* C14 -- placeholder while the pipeline is brought up *)
-From PV Require Import Base.MachineInt Model.C14Lut Model.C14Blind Model.C14Run Model.C14Oracle.
+(* C14 -- blind rotation evaluates the lookup table at the encrypted index.  Pinned statements only.
+   Models: Model/C14Lut.v (lookup_table_set / lookup_table_rotate / mod_switch_2n / set_xai_plus_y, transcriptions of
+   poulpy-bin-fhe/src/blind_rotation/{lut.rs, algorithms/mod.rs, utils.rs}), Model/C14Blind.v (the CGGI accumulator loops of
+   algorithms/cggi/algorithm.rs at the level of phases), spec notions: Model/Poly.v, Model/C14Spec.v. *)
+From PV Require Import Base.MachineInt Model.Znx Model.Limbs Model.Ring Model.Poly
+  Model.C14Lut Model.C14Spec Model.C14Blind Model.C14Run Model.C14Oracle.
+From PV Require Import Proofs.C14Rotate Proofs.C14Set Proofs.C14Poly Proofs.C14Blind Proofs.C14ModSwitch.
 Open Scope Z_scope.
-Theorem C14_placeholder : div_round 8 4 = 2.
-Proof. reflexivity. Qed.
-Print Assumptions C14_placeholder.
+
+(* ================= 1. interleaving the ext polynomials: a bijection onto coefficient lists of length N*ext ================= *)
+Theorem C14_interleave_bijection :
+  (forall (n : nat) (parts : list (list Z)),
+     (0 < length parts)%nat -> Forall (fun p : list Z => length p = n) parts ->
+     deinterleave (length parts) (interleave (n * length parts) parts) = parts) /\
+  (forall (n e : nat) (a : list Z),
+     (0 < e)%nat -> length a = (n * e)%nat ->
+     interleave (n * e) (deinterleave e a) = a /\
+     length (deinterleave e a) = e /\ Forall (fun p : list Z => length p = n) (deinterleave e a)).
+Proof. exact interleave_bijection. Qed.
+Print Assumptions C14_interleave_bijection.
+
+(* ... under which lookup_table_rotate k is multiplication by Y^k in Z[Y]/(Y^(N*ext)+1), for EVERY integer k, every limb *)
+Theorem C14_lut_rotate_is_big_ring_rotation :
+  forall (m x size : nat) (data : lut) (k : Z),
+    (m + x + 1 <= 62)%nat -> length data = (2 ^ x)%nat -> lut_wf (2 ^ m) size data ->
+    length (lookup_table_rotate (2 ^ m) k data) = length data /\
+    lut_wf (2 ^ m) size (lookup_table_rotate (2 ^ m) k data) /\
+    forall l, (l < size)%nat ->
+      lut_big (2 ^ m) (lookup_table_rotate (2 ^ m) k data) l = monomial_mul 64 k (lut_big (2 ^ m) data l).
+Proof. exact lut_rotate_is_big_ring_rotation. Qed.
+Print Assumptions C14_lut_rotate_is_big_ring_rotation.
+
+(* the code's `((k + 2N ext) % (2N ext)) as usize`: the canonical residue for -2N ext <= k ... *)
+Theorem C14_lut_rotate_index_exact :
+  forall (m x : nat) (k : Z), (m + x + 1 <= 62)%nat ->
+    let T := 2 * Z.of_nat (2 ^ m) * Z.of_nat (2 ^ x) in
+    - T <= k < 2 ^ 62 -> lut_kpos (2 ^ m) (Z.of_nat (2 ^ x)) k = k mod T.
+Proof. exact lut_kpos_exact. Qed.
+Print Assumptions C14_lut_rotate_index_exact.
+(* ... and congruent to k for every other k (the complement is NOT a defect: the u64 reinterpretation adds 2^64, a multiple of 2N ext) *)
+Theorem C14_lut_rotate_index_congruent :
+  forall (m x : nat) (k : Z), (m + x + 1 <= 62)%nat ->
+    let T := 2 * Z.of_nat (2 ^ m) * Z.of_nat (2 ^ x) in
+    (lut_kpos (2 ^ m) (Z.of_nat (2 ^ x)) k) mod T = k mod T.
+Proof. exact lut_kpos_congruent. Qed.
+Print Assumptions C14_lut_rotate_index_congruent.
+Theorem C14_lut_rotate_index_wraps : lut_kpos 1 1 (-3) = 2 ^ 64 - 1 /\ (-3) mod 2 = 1.
+Proof. exact lut_kpos_wraps. Qed.
+Print Assumptions C14_lut_rotate_index_wraps.
+
+(* ================= 2. set then rotate: which entry lands where ================= *)
+(* every limb l, every big-ring coefficient u, every rotation k: after set(f, kmsg) and rotate(k) the table holds the limbs of
+   (-1)^(t div domain) * f[(t mod domain) / step] * scale,  t = u + drift - k  (Model/C14Spec.v: selected_limbs) *)
+Theorem C14_lut_set_then_rotate_table :
+  forall (m x : nat) (b klut kmsg : Z) (f : list Z),
+    (m + x + 1 <= 62)%nat -> 1 <= b <= 62 ->
+    1 <= Z.of_nat (length f) <= Z.of_nat (2 ^ m) ->
+    Z.of_nat (2 ^ m * 2 ^ x) mod Z.of_nat (length f) = 0 ->
+    Forall (fun fi : Z => Z.abs (wmul 64 fi (lut_scale b kmsg)) <= 2 ^ 62) f ->
+    forall (data : lut) (drift' : Z),
+    lookup_table_set (2 ^ m) (2 ^ x) b klut kmsg f = Some (data, drift') ->
+    forall (k : Z) (l u : nat),
+    (l < Z.to_nat (div_ceil klut b))%nat -> (u < 2 ^ m * 2 ^ x)%nat ->
+    nthZ (lut_big (2 ^ m) (lookup_table_rotate (2 ^ m) k data) l) u =
+    nthZ (selected_limbs (Z.of_nat (2 ^ m * 2 ^ x)) (Z.of_nat (2 ^ m * 2 ^ x) / Z.of_nat (length f))
+            (Z.of_nat (2 ^ m * 2 ^ x) / Z.of_nat (length f) / 2) b (Z.to_nat (div_ceil klut b))
+            (Z.to_nat (div_ceil kmsg b)) (lut_scale b kmsg) f k (Z.of_nat u)) l.
+Proof. exact set_then_rotate_limb. Qed.
+Print Assumptions C14_lut_set_then_rotate_table.
+
+(* coefficient 0, any rotation k (k = -j: Left, k = +j: Right) *)
+Theorem C14_lut_set_then_rotate_selects :
+  forall (m x : nat) (b klut kmsg : Z) (f : list Z),
+    (m + x + 1 <= 62)%nat -> 1 <= b <= 62 ->
+    1 <= Z.of_nat (length f) <= Z.of_nat (2 ^ m) ->
+    Z.of_nat (2 ^ m * 2 ^ x) mod Z.of_nat (length f) = 0 ->
+    Forall (fun fi : Z => Z.abs (wmul 64 fi (lut_scale b kmsg)) <= 2 ^ 62) f ->
+    forall (data : lut) (drift' : Z),
+    lookup_table_set (2 ^ m) (2 ^ x) b klut kmsg f = Some (data, drift') ->
+    forall k : Z,
+    coeff0 (lookup_table_rotate (2 ^ m) k data) =
+    selected_limbs (Z.of_nat (2 ^ m * 2 ^ x)) (Z.of_nat (2 ^ m * 2 ^ x) / Z.of_nat (length f))
+      (Z.of_nat (2 ^ m * 2 ^ x) / Z.of_nat (length f) / 2) b (Z.to_nat (div_ceil klut b)) (Z.to_nat (div_ceil kmsg b))
+      (lut_scale b kmsg) f k 0.
+Proof. exact set_then_rotate_selects. Qed.
+Print Assumptions C14_lut_set_then_rotate_selects.
+
+(* the property text: after rotating by -j the constant coefficient is +-f[floor((j + drift)/step) mod len] * scale (as
+   normalised limbs), negated iff floor((j + drift)/domain) is odd -- every j (in particular every j in [0, 2N ext)) *)
+Theorem C14_lut_set_then_rotate_selects_left :
+  forall (m x : nat) (b klut kmsg : Z) (f : list Z) (data : lut) (drift' j : Z),
+    let n := (2 ^ m)%nat in let ext := (2 ^ x)%nat in
+    let domain := Z.of_nat (n * ext) in let len := Z.of_nat (length f) in
+    let step := domain / len in let drift := step / 2 in
+    let size := Z.to_nat (div_ceil klut b) in let nl := Z.to_nat (div_ceil kmsg b) in
+    let scale := lut_scale b kmsg in
+    (m + x + 1 <= 62)%nat -> 1 <= b <= 62 -> 1 <= len <= Z.of_nat n -> domain mod len = 0 ->
+    Forall (fun fi => Z.abs (wmul 64 fi scale) <= 2 ^ 62) f ->
+    lookup_table_set n ext b klut kmsg f = Some (data, drift') ->
+    coeff0 (lookup_table_rotate n (- j) data) =
+      let e := entry_limbs b size nl (wmul 64 (nthZ f (Z.to_nat (((j + drift) / step) mod len))) scale) in
+      if Z.even ((j + drift) / domain) then e else map (wneg 64) e.
+Proof. exact set_then_rotate_selects_left. Qed.
+Print Assumptions C14_lut_set_then_rotate_selects_left.
+
+(* ================= 3. mod_switch_2n ================= *)
+(* first branch (lwe radix b > log2(2N ext) + 1, 2N ext = 2^t): round-to-nearest (ties up) of +-x / 2^(b-t):
+   within half a step, and in [-N ext, N ext] (both ends reachable: -2^(b-1) -> -N ext for Right, +N ext for Left) *)
+Theorem C14_mod_switch_range_and_rounding_partial :
+  forall (t b : Z) (left : bool) (l0 : list Z) (rest : list (list Z)),
+    1 <= t -> t + 1 < b <= 62 -> Forall (in_range b) l0 ->
+    exists res : list Z,
+      mod_switch_2n (2 ^ t) b left (l0 :: rest) = Some res /\ length res = length l0 /\
+      (forall i : nat, (i < length l0)%nat ->
+         let sx := if left then - nthZ l0 i else nthZ l0 i in
+         nthZ res i = (sx + 2 ^ (b - t - 1)) / 2 ^ (b - t) /\
+         Z.abs (nthZ res i * 2 ^ (b - t) - sx) <= 2 ^ (b - t - 1) /\
+         - 2 ^ (t - 1) <= nthZ res i <= 2 ^ (t - 1)).
+Proof. exact mod_switch_first_branch. Qed.
+Print Assumptions C14_mod_switch_range_and_rounding_partial.
+
+(* the rounding rule for every radix (Model/C14Oracle.v: ms_ok) ... *)
+Definition C14_mod_switch_range_and_rounding_full : Prop := mod_switch_rule_full.
+(* ... is false in the second branch (radix <= log2(2N ext) + 1): finding C14 mod_switch_2n.small_radix *)
+Theorem C14_mod_switch_small_radix_refuted :
+  exists (n2 b : Z) (left : bool) (ls : list (list Z)) (res : list Z),
+    normalized_limbs b ls = true /\ mod_switch_2n n2 b left ls = Some res /\ ms_ok n2 b left ls res = false.
+Proof. exact mod_switch_small_radix_refuted. Qed.
+Print Assumptions C14_mod_switch_small_radix_refuted.
+
+(* ================= 4. set_xai_plus_y ================= *)
+Theorem C14_xai_plus_y_poly :
+  forall m ai y : Z, 0 <= m -> 0 <= ai < 2 * 2 ^ m ->
+    let r := set_xai_plus_y (2 ^ m) ai y (zeros (Z.to_nat (2 ^ m))) in
+    length (fst r) = Z.to_nat (2 ^ m) /\
+    snd r = zeros (Z.to_nat (2 ^ m)) /\
+    (forall j : nat, (j < Z.to_nat (2 ^ m))%nat ->
+       nthZ (fst r) j =
+       (if (j =? 0)%nat
+        then wadd 64 (nthZ (monomial_mul 64 ai (upd (zeros (Z.to_nat (2 ^ m))) 0 1)) 0) y
+        else nthZ (monomial_mul 64 ai (upd (zeros (Z.to_nat (2 ^ m))) 0 1)) j)).
+Proof. exact xai_plus_y_poly. Qed.
+Print Assumptions C14_xai_plus_y_poly.
+
+(* ================= 5. the accumulator loops ================= *)
+(* standard CGGI over abstract ciphertexts: from the phase equation of the external product (C04, bounded error B), and the
+   phase equations of mul_xp_minus_one / add (C02):  phase(acc_final) = X^(sum a_i s_i) * phase(acc_0) + E, |E|_inf <= 2 B n_lwe *)
+Theorem C14_blind_rotation_phase :
+  forall (ct : Type) (phase : ct -> poly) (N : nat) (B : Z) (extprod : ct -> nat -> ct)
+         (mulxp : Z -> ct -> ct) (ctadd : ct -> ct -> ct) (s : nat -> Z),
+    (forall c : ct, length (phase c) = N) ->
+    (forall i : nat, s i = 0 \/ s i = 1) ->
+    (* external_product_phase *)
+    (forall (acc : ct) (i : nat), exists e : list Z,
+        length e = N /\ bounded B e /\ phase (extprod acc i) = padd (pscale (s i) (phase acc)) e) ->
+    (forall (a : Z) (c : ct), phase (mulxp a c) = xp_minus_one a (phase c)) ->
+    (forall c d : ct, phase (ctadd c d) = padd (phase c) (phase d)) ->
+    forall (av : list Z) (i : nat) (acc : ct),
+    exists E : list Z,
+      length E = N /\ bounded (2 * B * Z.of_nat (length av)) E /\
+      phase (std_loop ct extprod mulxp ctadd i av acc) = padd (zrot (expo s i av) (phase acc)) E.
+Proof. exact standard_phase. Qed.
+Print Assumptions C14_blind_rotation_phase.
+
+(* the executable phase models run by the correspondence check (noise term dropped) *)
+Theorem C14_blind_rotation_phase_standard_model :
+  forall (b : Z) (av sv : list Z) (lut0 : poly),
+    binaryl (combine av sv) -> cggi_standard b av sv lut0 = zrot (b + dotp (combine av sv)) lut0.
+Proof. exact cggi_standard_rot. Qed.
+Print Assumptions C14_blind_rotation_phase_standard_model.
+
+(* block-binary: at most one selected coefficient per block *)
+Theorem C14_blind_rotation_phase_block :
+  forall (n block : nat) (b : Z) (av sv : list Z) (lut0 : poly),
+    (0 < n)%nat -> length lut0 = n ->
+    Forall at_most_one (chunks block (combine av sv)) ->
+    cggi_block n block b av sv lut0 = zrot (b + dotp (concat (chunks block (combine av sv)))) lut0.
+Proof. exact cggi_block_rot. Qed.
+Print Assumptions C14_blind_rotation_phase_block.
+(* ... and the chunks are all the coefficients when the block size divides n_lwe (what fill_binary_block asserts);
+   otherwise chunks_exact drops the tail (Model/C14Blind.v: chunks) *)
+Theorem C14_chunks_cover :
+  forall (bs : nat) (l : list (Z * Z)) (k : nat), (0 < bs)%nat -> length l = (k * bs)%nat -> concat (chunks bs l) = l.
+Proof. exact (@chunks_concat (Z * Z)). Qed.
+Print Assumptions C14_chunks_cover.
+
+(* extended variant: one selected coefficient turns the ext components into those of Y^a * acc, EXCEPT for the coefficients
+   excluded by ext_guard (ai_lo <> 0 and ai_hi = 0 or ai_hi + 1 = 2N) *)
+Theorem C14_blind_rotation_phase_extended_partial :
+  forall (n : nat) (a : Z) (acc : list poly),
+    (0 < n)%nat -> (0 < length acc)%nat -> Forall (fun p => length p = n) acc ->
+    ext_guard (Z.of_nat n) (Z.of_nat (length acc)) a ->
+    map2 padd acc (ext_contrib n a 1 acc) = ext_rot n a acc.
+Proof. exact ext_step_is_rotation. Qed.
+Print Assumptions C14_blind_rotation_phase_extended_partial.
+Definition C14_blind_rotation_phase_extended_full : Prop := ext_step_is_rotation_full.
+(* finding C14 cggi.extended.unit_monomial_skipped *)
+Theorem C14_blind_rotation_phase_extended_refuted :
+  exists (n : nat) (a : Z) (acc : list poly),
+    (0 < n)%nat /\ (0 < length acc)%nat /\ Forall (fun p => length p = n) acc /\
+    map2 padd acc (ext_contrib n a 1 acc) <> ext_rot n a acc.
+Proof. exact ext_step_is_rotation_refuted. Qed.
+Print Assumptions C14_blind_rotation_phase_extended_refuted.
+Theorem C14_blind_rotation_extended_model_refuted :
+  exists (n block : nat) (b : Z) (av sv : list Z) (lutp : list poly),
+    nth 0 (cggi_extended n block b av sv lutp) [] <> nth 0 (ext_rot n (b + dotp (combine av sv)) lutp) [].
+Proof. exact cggi_extended_refuted. Qed.
+Print Assumptions C14_blind_rotation_extended_model_refuted.
+(* the contribution without the two guards (work/proposed_fixes/C14_extended_unit_monomial.diff) has no exception *)
+Theorem C14_blind_rotation_phase_extended_repaired :
+  forall (n : nat) (a : Z) (acc : list poly),
+    (0 < n)%nat -> (0 < length acc)%nat -> Forall (fun p => length p = n) acc ->
+    map2 padd acc (ext_contrib_spec n a 1 acc) = ext_rot n a acc.
+Proof. exact ext_step_spec_is_rotation. Qed.
+Print Assumptions C14_blind_rotation_phase_extended_repaired.
+
+(* ================= examples: the hypotheses are satisfiable, the statements are not vacuous ================= *)
+(* N = 4, ext = 2, radix 4, 8-bit table, 3 message bits (scale 2), f = (1,2,3,-1): step 2, drift 1 *)
+Example C14_ex_set :
+  exists data, lookup_table_set 4 2 4 8 3 [1; 2; 3; -1] = Some (data, 1) /\
+    lut_big 4 data 0 = [2; 4; 4; 6; 6; -2; -2; -2] /\
+    coeff0 (lookup_table_rotate 4 (-3) data) = [6; 0] /\          (* j = 3: f[(3+1)/2] = f[2] = 3, times the scale 2 *)
+    coeff0 (lookup_table_rotate 4 (-8) data) = [-2; 0].            (* j = 8 = domain: -f[0] *)
+Proof. eexists. split; [vm_compute; reflexivity|]. vm_compute. auto. Qed.
+Example C14_ex_select_hyps :
+  (2 + 1 + 1 <= 62)%nat /\ 1 <= 4 <= 62 /\ 1 <= Z.of_nat (length [1; 2; 3; -1]) <= Z.of_nat (2 ^ 2) /\
+  Z.of_nat (2 ^ 2 * 2 ^ 1) mod Z.of_nat (length [1; 2; 3; -1]) = 0 /\
+  Forall (fun fi : Z => Z.abs (wmul 64 fi (lut_scale 4 3)) <= 2 ^ 62) [1; 2; 3; -1].
+Proof. repeat split; try (cbn; lia). repeat constructor; vm_compute; discriminate. Qed.
+Example C14_ex_mod_switch :
+  mod_switch_2n 16 6 false [[-32; 31; 2; -2]] = Some [-8; 8; 1; 0] /\ mod_switch_2n 16 6 true [[-32; 31; 2; -2]] = Some [8; -8; 0; 1].
+Proof. split; reflexivity. Qed.
+Example C14_ex_xai : fst (set_xai_plus_y 4 5 7 [0; 0; 0; 0]) = [7; -1; 0; 0] /\ snd (set_xai_plus_y 4 5 7 [0; 0; 0; 0]) = [0; 0; 0; 0].
+Proof. split; reflexivity. Qed.
+Example C14_ex_blind :
+  cggi_standard 1 [2; 3; 5] [1; 0; 1] [1; 2; 3; 4] = zrot 8 [1; 2; 3; 4] /\
+  cggi_block 4 2 1 [2; 3; 5; 7] [1; 0; 0; 1] [1; 2; 3; 4] = zrot (1 + 2 + 7) [1; 2; 3; 4] /\
+  Forall at_most_one (chunks 2 (combine [2; 3; 5; 7] [1; 0; 0; 1])).
+Proof. split; [reflexivity|]. split; [reflexivity|]. repeat constructor. Qed.
